@@ -499,6 +499,10 @@ def check_window_zones(case):
     pts = list(tg.timepoints) + [tg.end]
     a, b = case['window']
     s_inst, e_inst = pts[a], pts[b]                      # instants (aware, grid zone)
+    if case.get('offgrid'):
+        # window edges strictly between two grid points: the steps of [start, end) are those whose POINT lies in it
+        half = (pts[1] - pts[0]) / 2
+        s_inst, e_inst = pts[a] + half, pts[b] - half
     how = case['given']
     if how == 'naive':
         s_arg, e_arg = s_inst.tz_localize(None), e_inst.tz_localize(None)
@@ -515,10 +519,11 @@ def check_window_zones(case):
         out.append(fail('C08.window.zone_aware_dates_denote_instants', 'basic_classes:Timegrid.__init__', case, dict(case), f'{type(ex).__name__}: {str(ex)[:150]}'))
         return out
     got = sorted(set(int(t) for t in op.mapping['time_step']))
-    want = list(range(a, b))
+    want = list(range(a + 1, b)) if case.get('offgrid') else list(range(a, b))
     if got != want:
-        out.append(fail('C08.window.zone_aware_dates_denote_instants', 'basic_classes:Timegrid.__init__', case, dict(case),
-                        f'window [{s_arg}, {e_arg}) given as {how}: dispatched in steps {got[:3]}..{got[-3:] if got else []} ({len(got)}), the window covers steps {a}..{b - 1}'))
+        for nm in ('C08.window.zone_aware_dates_denote_instants', 'C19.restrict.subset_of_the_points_in_start_end'):
+            out.append(fail(nm, 'basic_classes:Timegrid.__init__', case, dict(case),
+                            f'window [{s_arg}, {e_arg}) given as {how}: dispatched in steps {got[:3]}..{got[-3:] if got else []} ({len(got)}), the window covers steps {want[:1]}..{want[-1:]}'))
     return out
 
 
